@@ -679,6 +679,121 @@ pub fn check_c16(r: &Runner, ctx: &mut Ctx, l: &mut Local, rec: &CaseRec) -> Res
         account_std(r, l, rec, &oh, nt, "parse_headers vs message");
         return Ok(());
     }
+    if rec.sub == "c16-split-message" {
+        // parse_headers(h) vs the message's own start line followed by h
+        let b = &rec.buf;
+        let mut i = 0;
+        loop {
+            if b[i..].starts_with(b"\r\n") {
+                i += 2;
+            } else if b[i..].starts_with(b"\n") {
+                i += 1;
+            } else {
+                break;
+            }
+        }
+        let Some(lf) = b[i..].iter().position(|&c| c == b'\n').map(|p| p + i) else {
+            r.account(l, rec, false, "");
+            return Ok(());
+        };
+        let (sl, h) = b.split_at(lf + 1);
+        // the start line must be acceptable on its own
+        let mut alone = rec.clone();
+        alone.cfg = 0;
+        alone.buf = [sl, b"\r\n"].concat();
+        let oa = run_rec(ctx, &alone);
+        if norm(&oa).st != St::Complete(sl.len() + 2) {
+            if l.counting {
+                l.bump("split: start line not accepted on its own");
+            }
+            r.account(l, rec, false, "");
+            return Ok(());
+        }
+        let mut hr = rec.clone();
+        hr.entry = Entry::Headers;
+        hr.cfg = 0;
+        hr.buf = h.to_vec();
+        let oh = run_rec(ctx, &hr);
+        if let Some(v) = panic_viol("C16", &oh, &hr) {
+            return Err(v);
+        }
+        let nh = norm(&oh);
+        let mut m = rec.clone();
+        m.cfg = 0;
+        let om = run_rec(ctx, &m);
+        if let Some(v) = panic_viol("C16", &om, &m) {
+            return Err(v);
+        }
+        let nm = norm(&om);
+        let shift = sl.len();
+        let st_ok = match (&nh.st, &nm.st) {
+            (St::Complete(a), St::Complete(b)) => a + shift == *b,
+            (x, y) => x == y,
+        };
+        let hdr_ok = !matches!(nh.st, St::Complete(_))
+            || (nh.headers.len() == nm.headers.len()
+                && nh.headers.iter().zip(nm.headers.iter()).all(|(a, b)| {
+                    a.0 .0 + shift == b.0 .0
+                        && a.0 .1 == b.0 .1
+                        && match (a.1, b.1) {
+                            (None, None) => true,
+                            (Some(x), Some(y)) => x.0 + shift == y.0 && x.1 == y.1,
+                            _ => false,
+                        }
+                }));
+        if !st_ok || !hdr_ok {
+            return Err(viol(
+                &format!("C16/parse_headers-vs-{}", rec.entry.kind().name()),
+                format!("parse_headers on the part after the start line gives {} with {} headers; {} on the whole message (start line {:?}, accepted on its own) gives {} with {} headers (offset shift {})",
+                    nh.st.show(), nh.headers.len(), rec.entry.name(), show_bytes(sl, 60), nm.st.show(), nm.headers.len(), shift),
+                rec,
+            ));
+        }
+        if l.counting {
+            l.bump("split: compared");
+        }
+        account_std(r, l, rec, &om, h.contains(&b':'), "parse_headers vs the message's own start line");
+        return Ok(());
+    }
+    if rec.sub == "c16-sequence" {
+        // the same sequence of buffers through each entry point, each on its own reused value
+        let mut seq: Vec<&[u8]> = rec.bufs.iter().map(|b| &b[..]).collect();
+        seq.push(&rec.buf);
+        let es = entries_of(kind);
+        let mut base: Option<(Entry, Vec<super::p_hist::StepObs>)> = None;
+        for &e in es {
+            if rec.cfg != 0 && !e.takes_cfg() {
+                continue;
+            }
+            IN_PARSER.with(|c| c.set(true));
+            let res = std::panic::catch_unwind(std::panic::AssertUnwindSafe(|| super::p_hist::run_sequence(kind, e, rec.cfg, &seq, rec.cap)));
+            IN_PARSER.with(|c| c.set(false));
+            let Ok(obs) = res else {
+                return Err(viol("C16/panic", format!("a call of the sequence through {} panicked", e.name()), rec));
+            };
+            match &base {
+                None => base = Some((e, obs)),
+                Some((e0, o0)) => {
+                    if let Some(k) = (0..obs.len()).find(|&k| o0[k] != obs[k]) {
+                        return Err(viol(
+                            &format!("C16/entry-points-disagree-on-reused-value/{}", kind.name()),
+                            format!("call {} of {} on one reused value: {} leaves {:?}; {} leaves {:?}", k + 1, obs.len(), e0.name(), o0[k], e.name(), obs[k]),
+                            rec,
+                        ));
+                    }
+                }
+            }
+        }
+        if let Some((_, o)) = &base {
+            let last = o.last().unwrap();
+            if l.counting {
+                l.bump(status_hist_key(&last.st));
+            }
+            let nt = o.len() >= 2 && (last.version.is_some() || last.method.is_some()) && o[..o.len() - 1].iter().any(|s| s.version.is_some() || s.method.is_some());
+            r.account(l, rec, nt, "sequence through each entry point");
+        }
+        return Ok(());
+    }
     // the entry points of one kind
     let es = entries_of(kind);
     let mut base: Option<(Entry, Obs, Norm)> = None;
@@ -1337,6 +1452,95 @@ pub fn run_c16(r: &Runner) {
         check_c16(r, ctx, l, &rec)
     });
     hdr_exhaustive(r, "header strings × 8 contexts × option combos: entry points of one kind", if r.quick() { 4 } else { 5 }, &all_opt_combos()[1..], "c16-same-kind", check_c16);
+    // parse_headers vs the message's own start line (whatever the generator produced:
+    // leading empty lines, long targets, reasons with HTAB / obs-text, ...)
+    let g3 = GenSpec { kinds: &RR_KINDS, profile: Profile { truncate: 24, mutate: 40, ..Profile::DEFAULT }, generous_cap: false, cfg_mask: 0, cfg_entry_only: false };
+    r.par_random(
+        "G1 messages under the default config, split after their own start line: parse_headers(rest) vs the whole message",
+        r.amount(2_000_000, 30_000_000),
+        160,
+        |u: &mut Choice| {
+            let mut rec = g1_case(u, "c16-split-message", &g3);
+            rec.cfg = 0;
+            rec.entry = if rec.kind() == Kind::Request { Entry::ReqParse } else { Entry::RespParse };
+            rec
+        },
+        &|ctx, l, rec| check_c16(r, ctx, l, rec),
+    );
+    {
+        const SLS: [(&[u8], Entry); 16] = [
+            (b"GET / HTTP/1.1\r\n", Entry::ReqParse), (b"\r\n\nOPTIONS * HTTP/1.0\n", Entry::ReqParse),
+            (b"POST /a/very/long/target/that/spans/more/than/one/vector/block?x=1&y=2 HTTP/1.1\r\n", Entry::ReqParse),
+            (b"M-SEARCH /caf\xc3\xa9 HTTP/1.1\r\n", Entry::ReqParse),
+            (b"HTTP/1.1 200 OK\r\n", Entry::RespParse), (b"HTTP/1.0 404\n", Entry::RespParse), (b"HTTP/1.1 200 \r\n", Entry::RespParse),
+            (b"HTTP/1.1 200 X\xffZ\r\n", Entry::RespParse), (b"HTTP/1.1 500 Tr\xe8s bien\n", Entry::RespParse),
+            (b"HTTP/1.1 200 \tOK\t \r\n", Entry::RespParse), (b"HTTP/1.1 302   Moved  Temporarily  \r\n", Entry::RespParse),
+            (b"HTTP/1.1 200 a reason phrase that is longer than thirty-two bytes \xe9 and goes on\r\n", Entry::RespParse),
+            (b"\r\n\r\nHTTP/1.0 301 Moved\r\n", Entry::RespParse), (b"HTTP/1.1 999 \x80\n", Entry::RespParse),
+            (b"HTTP/1.1 100 Continue\r\n", Entry::RespParse), (b"G / HTTP/1.1\n", Entry::ReqParse),
+        ];
+        const BLOCKS: [&[u8]; 10] = [
+            b"\r\n", b"A: b\r\n\r\n", b"Host: example.com\r\nAccept: */*\r\n\r\nbody", b"A:\r\nB: c\r\n\r\n", b"A: b\nC: d\n\n",
+            b"A: b", b"A: b\r\nbad line\r\n\r\n", b"A: b\x01\r\n\r\n", b" A: b\r\n\r\n", b"A : b\r\n\r\n",
+        ];
+        r.par_enum("16 start lines (leading empty lines, long / UTF-8 targets, reasons with HTAB, SP runs, obs-text) × 10 header blocks × capacities {0,1,2,8}: parse_headers(rest) vs the whole message", 16 * 10 * 4, |ctx, l, idx| {
+            let cap = [0usize, 1, 2, 8][(idx % 4) as usize];
+            let x = idx / 4;
+            let (sl, entry) = SLS[(x % 16) as usize];
+            let blk = BLOCKS[(x / 16) as usize];
+            let rec = CaseRec::new("c16-split-message", entry, 0, cap, [sl, blk].concat());
+            check_c16(r, ctx, l, &rec)
+        });
+    }
+    // the same sequence of calls on one reused value through each entry point
+    {
+        let prof = Profile { truncate: 40, mutate: 40, ..Profile::DEFAULT };
+        r.par_random(
+            "sequences of 2..4 buffers (G1 messages, prefixes of the last one, fixed messages) parsed on one reused value through each entry point of the kind: states after every call must agree",
+            r.amount(1_500_000, 20_000_000),
+            420,
+            |u: &mut Choice| {
+                let kind = if u.chance(128) { Kind::Response } else { Kind::Request };
+                let (pbuf, nlines) = gen::message(u, kind, &prof);
+                let cfg = if u.chance(128) { 0 } else { pick_cfg(u) };
+                let cap = pick_cap(u, nlines + 1);
+                let n = u.range(1, 3);
+                let mut bufs = vec![];
+                for _ in 0..n {
+                    bufs.push(match u.weighted(&[100, 60, 40, 40]) {
+                        0 => gen::message(u, kind, &prof).0,
+                        1 => {
+                            let k = u.below(pbuf.len() + 1);
+                            pbuf[..k].to_vec()
+                        }
+                        2 => {
+                            let list: &[&[u8]] = if kind == Kind::Request { &super::p_hist::REQS } else { &super::p_hist::RESPS };
+                            list[u.below(8)].to_vec()
+                        }
+                        _ => pbuf.clone(),
+                    });
+                }
+                let mut rec = CaseRec::new("c16-sequence", Entry::cfg_entry(kind), cfg, cap, pbuf);
+                rec.bufs = bufs;
+                rec
+            },
+            &|ctx, l, rec| check_c16(r, ctx, l, rec),
+        );
+        r.par_enum("every ordered triple of 8 fixed requests / 8 fixed responses × capacities {0,2,8} on one reused value through each entry point", 2 * 8 * 8 * 8 * 3, |ctx, l, idx| {
+            let cap = [0usize, 2, 8][(idx % 3) as usize];
+            let mut x = idx / 3;
+            let a = (x % 8) as usize;
+            x /= 8;
+            let b = (x % 8) as usize;
+            x /= 8;
+            let c = (x % 8) as usize;
+            let kind = if x / 8 == 0 { Kind::Request } else { Kind::Response };
+            let list: &[&[u8]] = if kind == Kind::Request { &super::p_hist::REQS } else { &super::p_hist::RESPS };
+            let mut rec = CaseRec::new("c16-sequence", Entry::cfg_entry(kind), 0, cap, list[c].to_vec());
+            rec.bufs = vec![list[a].to_vec(), list[b].to_vec()];
+            check_c16(r, ctx, l, &rec)
+        });
+    }
     // minimal messages: the shortest possible start lines with runs of minimal header lines,
     // every capacity 0..=k+2 (a bound derived from the buffer length would only bite here)
     {
